@@ -116,6 +116,10 @@ func (c *Chain) Restart() (out Outcome) {
 		f.CtxBytes[k] = v
 	}
 	f.NCtx, f.TxSeq = c.NCtx, c.TxSeq
+	for k, v := range c.React {
+		f.React[k] = v
+		f.ReactCons[k] = c.ReactCons[k]
+	}
 	if c.HasModSvc {
 		f.RegisterTestModuleService()
 	}
@@ -137,6 +141,10 @@ func (c *Chain) freshLike() *Chain {
 		f.CtxBytes[k] = v
 	}
 	f.NCtx = c.NCtx
+	for k, v := range c.React {
+		f.React[k] = v
+		f.ReactCons[k] = c.ReactCons[k]
+	}
 	return f
 }
 
